@@ -11,6 +11,7 @@ independent reference (two's complement, NUL-padded ASCII); `Reg.*` is the model
 the Rust code.  `n` is the register length (`length = n` as evaluated `i64`).
 -/
 import CamVerif.Proofs.C01
+import CamVerif.Proofs.C01Cached
 namespace CamVerif.C01
 open CamVerif CamVerif.Reg CamVerif.Spec.Codec CamVerif.Proofs.C01
 
@@ -671,5 +672,98 @@ theorem failed_read_serves_nothing_stale {α : Type} (port : Port) (hp : port.ha
 
 example : ∃ d : Dev, d.refuse d.attempts = true ∧ d.refuse (d.attempts + 1) = false :=
   ⟨⟨fun _ => 0, [], fun n => n == 0, 0⟩, rfl, rfl⟩
+
+/-- **failed_write_serves_nothing_stale** (twin of `failed_read_serves_nothing_stale`): when the
+device refuses one write (fault script) and answers the next access, the guarded write —
+`set_value` of every kind ends in it, as does a raw `IRegister::write` — returns the device
+error having changed neither memory nor log, and the following `value()` is exactly one
+device read of `[address, address+length)` decoding the bytes the device (still) holds:
+nothing of the failed write is served.  (Caching off, atomic refusal; with the default cache
+and writes that are applied but reported failed / partially applied the same is checked on
+the implementation by the harness' cached passes.) -/
+theorem failed_write_serves_nothing_stale {α : Type} (port : Port) (hp : port.hasChunkId = false)
+    (address length : Int) (hl : asUsize length < 2 ^ 63) (buf : Bytes)
+    (hlen : buf.length = asUsize length) (d : Dev) (f : Bytes → R α)
+    (h1 : d.refuse d.attempts = true) (h2 : d.refuse (d.attempts + 1) = false) :
+    ∃ d1 d2, writeAndCache port address length buf d = (.err .device, d1) ∧ Untouched d d1 ∧
+      withRead port address length d1 f = (f (d.mem.readRange address (asUsize length)), d2) ∧
+      OneAccess d1 d2 ⟨.read, address, asUsize length, d.mem.readRange address (asUsize length)⟩ d.mem := by
+  refine ⟨afterRefusal d, afterRead (afterRefusal d) address (asUsize length), ?_, ⟨rfl, rfl⟩, ?_,
+    ⟨rfl, rfl, rfl, rfl⟩⟩
+  · rcases writeAndCache_cases port address length buf d with
+      ⟨h, _⟩ | ⟨_, h, _⟩ | ⟨_, _, _, h⟩ | ⟨_, _, h, _⟩
+    · exact absurd hlen h
+    · rw [hp] at h; cases h
+    · exact h
+    · rw [h1] at h; cases h
+  · rcases withRead_cases port address length (afterRefusal d) f with ⟨_, h⟩ | ⟨_, h⟩ | ⟨_, h⟩ | ⟨h, _⟩
+    · exact absurd hl h
+    · rw [hp] at h; cases h
+    · simp only [afterRefusal] at h; rw [h2] at h; cases h
+    · exact h
+
+/-! ## 7. Caching ON: composition with C04's cache model
+
+C04's model (`CamVerif.Model.Cache`, theorems in `Props/C04.lean`) is an interpreter of the
+register layer generic in the cache store, with its own `Int`-valued integer codecs.  The two
+bridging theorems tie those codecs to the independent `Spec.Codec` used above; the two
+composition theorems then hold for the build with the DEFAULT cache store. -/
+
+/-- **bridge (encode)**: C04's `bytes_from_int` is the two's-complement image. -/
+theorem cache_bytesFromInt_is_image (v : Int) (hv : -(2 ^ 63 : Int) ≤ v ∧ v < 2 ^ 63) (n : Nat)
+    (hn : IntLen n) (e : Cache.Endian) (s : Cache.Sign) :
+    Cache.bytesFromInt v n e s = .ok (image n (Proofs.C01Cached.eTo e) v) :=
+  Proofs.C01Cached.cache_bytesFromInt_is_image v hv n hn e s
+
+/-- **bridge (decode)**: C04's `int_from_slice` is the reading of the image. -/
+theorem cache_intFromSlice_is_reading (bs : Bytes) (hn : IntLen bs.length) (e : Cache.Endian)
+    (s : Cache.Sign) :
+    Cache.intFromSlice bs e s =
+      .ok (reading (Proofs.C01Cached.eTo e) (Proofs.C01Cached.sTo s) bs) :=
+  Proofs.C01Cached.cache_intFromSlice_is_reading bs hn e s
+
+/-- **cached_footprint** (DEFAULT cache store; WriteThrough, WriteAround, NoCache; any prior
+cache content; any description around the register): a successful `set_value(v)` of an IntReg
+with a constant address performs exactly one device access — a write of
+`[address, address+length)` — whose bytes are exactly the two's-complement image of `v` in the
+declared byte order, and the device then holds that image in that range. -/
+theorem cached_footprint {p : Profile} {g : Cache.Graph} {s s' : Cache.St Cache.Store}
+    {n : Cache.NodeId} {r : Cache.Reg} (hn : g[n]? = some (.reg r)) (hsel : r.sel = none)
+    {e : Cache.Endian} {sg : Cache.Sign} (hk : r.kind = .int e sg) {v : Int}
+    (hv : -(2 ^ 63 : Int) ≤ v ∧ v < 2 ^ 63) {u : Cache.Val}
+    (h : Cache.run Cache.defaultCache p g s (.setValue n (.int v)) = (.ok u, s')) :
+    IntLen r.len ∧
+    s'.dev.log = ⟨true, r.base, r.len, image r.len (Proofs.C01Cached.eTo e) v, true⟩ :: s.dev.log ∧
+    s'.dev.mem = Cache.patch s.dev.mem r.base.toNat (image r.len (Proofs.C01Cached.eTo e) v) ∧
+    s'.dev.peek r.base r.len = some (image r.len (Proofs.C01Cached.eTo e) v) :=
+  Proofs.C01Cached.cached_footprint hn hsel hk hv h
+
+/-- **cached_int_roundtrip** (DEFAULT cache store; every caching mode; any prior cache
+content; no hypothesis on what the description declares): after a successful `set_value(v)` of
+an in-range value on an IntReg with a constant address, `value()` returns `v` (C04's
+`own_write_visible` composed with the codec theorems). -/
+theorem cached_int_roundtrip {p : Profile} {g : Cache.Graph} {s s' : Cache.St Cache.Store}
+    {n : Cache.NodeId} {r : Cache.Reg} (hn : g[n]? = some (.reg r)) (hsel : r.sel = none)
+    {e : Cache.Endian} {sg : Cache.Sign} (hk : r.kind = .int e sg) {v : Int}
+    (hv : -(2 ^ 63 : Int) ≤ v ∧ v < 2 ^ 63) (hr : InRange r.len (Proofs.C01Cached.sTo sg) v)
+    {u : Cache.Val}
+    (h : Cache.run Cache.defaultCache p g s (.setValue n (.int v)) = (.ok u, s')) :
+    (Cache.run Cache.defaultCache p g s' (.value n)).1 = .ok (.int v) :=
+  Proofs.C01Cached.cached_int_roundtrip hn hsel hk hv hr h
+
+/-- the hypotheses are satisfiable: a WriteAround 2-byte register whose cache was filled by an
+earlier read; `set_value(-2)` succeeds and `value()` returns `-2` -/
+example :
+    let g : Cache.Graph := [.port, .reg ⟨.int .be .signed, 1, none, 2, .writeAround, .rw, [], 0⟩]
+    let s0 := Cache.initDefault g ⟨[0, 0x12, 0x34, 0xBB], [], [], [], [], 0, []⟩
+    let s1 := (Cache.run Cache.defaultCache Profile.dev g s0 (.value 1)).2
+    (Cache.run Cache.defaultCache Profile.dev g s0 (.value 1)).1 = .ok (.int 0x1234) ∧
+    (Cache.run Cache.defaultCache Profile.dev g s1 (.setValue 1 (.int (-2)))).1 = .ok .unit ∧
+    (Cache.run Cache.defaultCache Profile.dev g
+      (Cache.run Cache.defaultCache Profile.dev g s1 (.setValue 1 (.int (-2)))).2 (.value 1)).1 =
+        .ok (.int (-2)) ∧
+    (Cache.run Cache.defaultCache Profile.dev g s1 (.setValue 1 (.int (-2)))).2.dev.mem =
+      [0, 0xFF, 0xFE, 0xBB] := by
+  decide +kernel
 
 end CamVerif.C01
